@@ -1,6 +1,6 @@
 import extract
 import callgraph
-from rules import c01, recursion, bufbudget, common
+from rules import c01, c01i, recursion, bufbudget, common
 
 # entry points whose recursion is driven by user-shaped data (reader, writer, equal?, eval, strip)
 C01_RECURSION_ROOTS = ["sexp_read_op", "sexp_write_op", "sexp_equalp_op", "sexp_eval_op", "sexp_analyze",
@@ -20,7 +20,12 @@ def run(res, tier, replay=None):
     c01.run_g(prog, res)
     c01.run_c1(prog, res)
     bufbudget.run(prog, res, "C01", "C01.h", {"sexp.c"}, floor=2)
+    prims = c01.primitives(prog)
+    c01i.run(prog, res, floor=18, prims=prims, advisory_filter=c01.scope_filter())
+    c01i.run_views(prog, res, floor=5, prims=prims, advisory_filter=c01.scope_filter())
+    c01i.witnesses(prog, res)
     if tier == "thorough":
+        common.config_matrix(res, lambda p, r: (c01.run_b(p, r, floor=0), c01.run_a(p, r), c01.run_d(p, r)), violation=False)
         flt = c01.scope_filter()
         common.thorough_mutations(res, "C01", {
             "C01.b": lambda p, r: c01.run_b(p, r, advisory_filter=flt, floor=0),
@@ -30,6 +35,8 @@ def run(res, tier, replay=None):
             "C01.d": lambda p, r: c01.run_d(p, r),
             "C01.c1": lambda p, r: c01.run_c1(p, r),
             "C01.h": lambda p, r: bufbudget.run(p, r, "C01", "C01.h", {"sexp.c"}, floor=0),
+            "C01.i": lambda p, r: c01i.run(p, r, floor=0, prims=c01.primitives(p), advisory_filter=flt),
+            "C01.j": lambda p, r: c01i.run_views(p, r, floor=0, prims=c01.primitives(p), advisory_filter=flt),
         })
     res.assumptions = common.ASSUMPTIONS
     res.explanation = (
@@ -41,5 +48,12 @@ def run(res, tier, replay=None):
         "(f) every direct-recursion cycle reachable from reader/writer/equal?/eval passes through a verified depth-parameter "
         "bounder or a listed by-construction bounder. (a) every opcode that can be emitted or is exposed by opcodes[] has a VM "
         "case and the default arm raises. (d) slot getter/setter rows designate sexp fields. (g) saved context state is restored "
-        "on every path. Not decided: index arithmetic in hand-written primitives, VM operand guards (C01.c), reader token "
-        "buffers, stack growth sufficiency, OOM paths.")
+        "on every path. (i) index guards: every subscript / pointer addition into the data of a string, bytevector or vector operand "
+        "whose index carries the unboxed value of a program-supplied operand (a sexp parameter, a VM stack slot, a local "
+        "defined from one) is preceded on every path by comparisons that imply 0 <= index < length of that same object "
+        "(<= for reads of NUL-terminated string bytes); available-comparison dataflow with kills on redefinition and on "
+        "stores through the compared lvalues, linear normal forms, pairwise transitivity, unsigned-compare reasoning, "
+        "non-negativity summaries of cursor-producing callees; unguarded helper accesses become obligations of their call "
+        "sites. (j) string views: writers of (bytes, offset, length) keep offset + length inside the bytes object. "
+        "Not decided: pointer-walking loops, memcpy lengths, tables hung off the context (type table, signal handlers), "
+        "the reader's label table (value invariant), reader token buffers beyond C01.h, stack growth sufficiency, OOM paths.")
